@@ -533,14 +533,23 @@ fn check_state<S: CompOps>(
         if let Some((pre_roots, touched)) = pre {
             if t as u8 != touched % NTABLES as u8 {
                 ctx.report.count("checks.foreign_root_unchanged");
-                if pre_roots[t] != roots[t] {
+                let mut before = pre_roots[t].clone();
+                if ctx.selftest == 4 {
+                    ctx.st_counter += 1;
+                    if ctx.st_counter % 11 == 0 {
+                        if let Ok(r) = &mut before {
+                            r[5] ^= 1; // pretend the foreign root was different before the op
+                        }
+                    }
+                }
+                if before != roots[t] {
                     return Some(Viol {
                         sig: format!("foreign_root_changed after={after} view={view}"),
                         detail: format!(
                             "op on table {} changed root of table {}: before {:?} after {:?}",
                             TABLE_NAMES[touched as usize % NTABLES],
                             TABLE_NAMES[t],
-                            pre_roots[t].as_ref().map(hex::encode),
+                            before.as_ref().map(hex::encode),
                             roots[t].as_ref().map(hex::encode)
                         ),
                     });
